@@ -27,10 +27,15 @@ type params struct {
 	replier string // once | twice | never | slow (replies on release)
 	timeout time.Duration
 	kill    string // none | asker | asker-respawn
+	mix     bool   // the first Ask of a burst uses the default (5 s) timeout, the later ones p.timeout
 }
 
 func (p params) name() string {
-	return fmt.Sprintf("askers=%d/asks=%d/replier=%s/timeout=%v/kill=%s", p.askers, p.perAsk, p.replier, p.timeout, p.kill)
+	n := fmt.Sprintf("askers=%d/asks=%d/replier=%s/timeout=%v/kill=%s", p.askers, p.perAsk, p.replier, p.timeout, p.kill)
+	if p.mix {
+		n += "/first-ask-default-timeout"
+	}
+	return n
 }
 
 type pending struct {
@@ -42,6 +47,7 @@ type pending struct {
 	doneAt int64
 	done   bool
 	made   int64
+	eff    time.Duration // its timeout
 }
 
 func errStr(e error) string {
@@ -112,12 +118,14 @@ func scenario(p params, bounds []int) *vexp.Scenario {
 						id := fmt.Sprintf("%s.%d", name, gen)
 						var f vivid.Future[vivid.Message]
 						t0 := vrt.Now()
-						if p.timeout == 0 {
+						eff := p.timeout
+						if p.timeout == 0 || (p.mix && i == 0) {
 							f = ctx.Ask(repRef, req{ID: id})
+							eff = 5 * time.Second
 						} else {
 							f = ctx.Ask(repRef, req{ID: id}, p.timeout)
 						}
-						pd := &pending{id: id, asker: name, fut: f, made: t0}
+						pd := &pending{id: id, asker: name, fut: f, made: t0, eff: eff}
 						pend = append(pend, pd)
 						vrt.Go("waiter-"+id, func() {
 							v, err := f.Result()
@@ -154,9 +162,12 @@ func scenario(p params, bounds []int) *vexp.Scenario {
 			}
 			vrt.Quiesce() // lets timeouts fire
 			// ---------------- oracle ----------------
-			eff := p.timeout
-			if eff == 0 {
-				eff = 5 * time.Second
+			// when did the killed asker terminate (virtual time)?
+			askerDiedAt := int64(-1)
+			for _, pb := range w.PubsOf("ActorKilledEvent") {
+				if pb.Ref == "/a1" && askerDiedAt < 0 {
+					askerDiedAt = pb.At
+				}
 			}
 			var oc []string
 			for _, pd := range pend {
@@ -176,8 +187,12 @@ func scenario(p params, bounds []int) *vexp.Scenario {
 						x.Fail("own-first-reply", "Ask %s completed with %s although nobody replied", pd.id, pd.val)
 					}
 				case pd.err == "timeout":
+					eff := pd.eff
 					if pd.doneAt-pd.made < int64(eff) {
 						x.Fail("timeout-not-early", "Ask %s timed out after %v, its timeout is %v", pd.id, time.Duration(pd.doneAt-pd.made), eff)
+					}
+					if p.kill == "asker" && pd.asker == "a1" && askerDiedAt >= 0 && askerDiedAt < pd.made+int64(eff) {
+						x.Fail("dead-asker-completes-its-asks", "Ask %s was still pending when its asker terminated at %v, yet it only completed by its own timeout at %v instead of with the actor-dead error", pd.id, time.Duration(askerDiedAt), time.Duration(pd.doneAt))
 					}
 				case pd.err == "deaded":
 					if p.kill == "none" || pd.asker != "a1" {
@@ -231,6 +246,13 @@ func build(tier string) []*vexp.Scenario {
 		for _, to := range []time.Duration{time.Second, 0} {
 			out = append(out, scenario(params{askers: 2, perAsk: 1, replier: rp, timeout: to, kill: "asker"}, bounds))
 			out = append(out, scenario(params{askers: 1, perAsk: 2, replier: rp, timeout: to, kill: "asker"}, bounds))
+		}
+	}
+	// an Ask whose timer fires while it is being registered, next to a long-lived Ask of the same asker, then the asker dies
+	for _, rp := range []string{"never", "slow"} {
+		for _, per := range []int{2, 3} {
+			out = append(out, scenario(params{askers: 1, perAsk: per, replier: rp, timeout: time.Nanosecond, kill: "asker", mix: true}, []int{0, 1, 2}))
+			out = append(out, scenario(params{askers: 1, perAsk: per, replier: rp, timeout: time.Nanosecond, kill: "none", mix: true}, bounds))
 		}
 	}
 	for _, to := range []time.Duration{time.Second, 0} {
